@@ -13,3 +13,8 @@ add("C19", "exploration",
     "Held on the executions explored: every HTTP request observed at the recording server (25 request kinds incl. GET stream, DELETE, answers to server-issued requests, legacy connect) carried the configured headers, session id and path, passed the configured handler and the before-request function exactly once with the right context token; a vetoed request never reached the server and its operation failed with that error.",
     "Trusted: the hand-written reference server and the join of the three logs. There is no public option for a custom http.Client; the recording handler substitutes its own client.",
     "DESIGN.md section 4 C19")
+add("C06", "exploration",
+    "runtime monitoring: hostile-input lattice driven by raw peers against the server in a child process; oracles = process liveness, net/http ErrorLog panic scan, per-input answer class, canary calls (same / fresh / independent connection), goroutine-table diff at quiescence",
+    "Held on the executions explored: no input of the enumerated lattice (type substitution in every member, envelope faults, unparsable and truncated bodies, deep/large values, unsolicited responses, HTTP-level faults) killed, wedged or panicked any of the 7 server configurations; every input owed an answer got one; well-formed traffic from an independent client kept being served; goroutines with library frames did not grow with the number of inputs.",
+    "'No sequence of bytes' is sampled by an enumerated lattice plus seeded mutations (thorough); memory exhaustion is not driven; coverage-guided fuzzing is not used.",
+    "DESIGN.md section 4 C06")
